@@ -5,9 +5,12 @@ import (
 
 	"cosmossdk.io/log"
 	sdkmath "cosmossdk.io/math"
+	codectypes "github.com/cosmos/cosmos-sdk/codec/types"
 	sdk "github.com/cosmos/cosmos-sdk/types"
 	consensustypes "github.com/palomachain/paloma/v2/x/consensus/types"
+	evmtypes "github.com/palomachain/paloma/v2/x/evm/types"
 	valsettypes "github.com/palomachain/paloma/v2/x/valset/types"
+	"github.com/palomachain/paloma/v2/zzverif/models"
 	"github.com/palomachain/paloma/v2/zzverif/sym"
 )
 
@@ -106,5 +109,83 @@ func VerifC04_Gas() {
 }
 
 var VerifEntries = map[string]func(){
-	"VerifC04_Gas": VerifC04_Gas,
+	"VerifC04_Gas":      VerifC04_Gas,
+	"VerifC04_Evidence": VerifC04_Evidence,
+}
+
+// VerifC04_Evidence: VerifyEvidence names a winner only when snapshot members
+// holding >= 2/3 of the total shares supplied byte-identical evidence; each
+// validator counts once, with its latest submission (the real AddEvidence
+// replaces), validators outside the snapshot do not count.
+func VerifC04_Evidence() {
+	maxN, maxM := 3, 3
+	if sym.Tier() == "thorough" {
+		maxN, maxM = 4, 4
+	}
+	n := 1 + sym.Choice("n", maxN)
+	m := 1 + sym.Choice("m", maxM)
+	snap, shares := c04Snapshot(n, 250)
+	for _, sh := range shares {
+		sym.Assume(sh.IsPositive()) // snapshot members are bonded validators with positive stake (C10)
+	}
+	cdc := models.Codec(func(r codectypes.InterfaceRegistry) { evmtypes.RegisterInterfaces(r) })
+	texts := []string{"boom", "bang", "bust"}
+	// m submissions, in order; a validator may submit again (its earlier evidence is replaced)
+	msg := &consensustypes.QueuedSignedMessage{}
+	latest := map[int]int{} // validator -> index into texts of its latest submission
+	for j := 0; j < m; j++ {
+		v := sym.Choice("who", n+1) // index n = bonded validator outside the snapshot
+		t := sym.Choice("what", len(texts))
+		addr := c04Vals[4]
+		if v < n {
+			addr = c04Vals[v]
+		}
+		proof, err := codectypes.NewAnyWithValue(&evmtypes.SmartContractExecutionErrorProof{ErrorMessage: texts[t]})
+		if err != nil {
+			panic(err)
+		}
+		msg.AddEvidence(consensustypes.Evidence{ValAddress: addr, Proof: proof})
+		latest[v] = t
+	}
+	evs := make([]Evidence, 0, m)
+	for _, e := range msg.GetEvidence() {
+		evs = append(evs, e)
+	}
+	sym.Assert(len(evs) == len(latest), "one-evidence-entry-per-validator")
+	cc := New(func(context.Context) (*valsettypes.Snapshot, error) { return snap, nil }, cdc)
+	res, err := cc.VerifyEvidence(context.Background(), evs)
+
+	// ghost tally per distinct evidence over snapshot members
+	power := make([]sdkmath.Int, len(texts))
+	for t := range power {
+		power[t] = sdkmath.ZeroInt()
+	}
+	for v, t := range latest {
+		if v < n {
+			power[t] = power[t].Add(shares[v])
+		}
+	}
+	quorum := func(p sdkmath.Int) bool {
+		return p.IsPositive() && p.MulRaw(3).GTE(snap.TotalShares.MulRaw(2))
+	}
+	if err == nil {
+		sym.Reach("evidence-winner")
+		w, ok := res.Winner.(*evmtypes.SmartContractExecutionErrorProof)
+		sym.Assert(ok && w != nil, "winner-is-submitted-evidence")
+		if ok && w != nil {
+			idx := -1
+			for t := range texts {
+				if texts[t] == w.ErrorMessage {
+					idx = t
+				}
+			}
+			sym.Assert(idx >= 0 && quorum(power[idx]), "winner-backed-by-two-thirds-of-snapshot-shares-on-identical-evidence")
+		}
+	} else {
+		sym.Reach("no-evidence-consensus")
+		sym.Assert(err == ErrConsensusNotAchieved, "only-error-is-consensus-not-achieved")
+		for t := range texts {
+			sym.Assert(!quorum(power[t]), "two-thirds-on-identical-evidence-is-recognised")
+		}
+	}
 }
